@@ -315,6 +315,46 @@ class S:
             self.polls.append(itask)
 ''')
 
+case('helper whose only return sits in a try whose handlers raise', '''
+def ev(expr, err):
+    try:
+        node = parse(expr)
+    except SyntaxError:
+        raise err(expr) from None
+    return run(node)
+''', '''
+def ev(expr, err):
+    node = _parse_expression(expr, err)
+    return run(node)
+
+
+def _parse_expression(text, error_class):
+    try:
+        return parse(text)
+    except SyntaxError:
+        raise error_class(text) from None
+''', '''
+def ev(expr, err):
+    try:
+        node = parse(expr)
+    except SyntaxError:
+        raise err(expr) from None
+    return run(node)
+''')
+
+case('new local closure is expanded inside its function', '''
+def opt(expression, used, allv):
+    return {o: Ev(expression, **{v: v != o for v in allv}) for o in used}
+''', '''
+def opt(expression, used, allv):
+    def _is_optional(o):
+        return Ev(expression, **{v: v != o for v in allv})
+    return {o: _is_optional(o) for o in used}
+''', '''
+def opt(expression, used, allv):
+    return {o: Ev(expression, **{v: v != o for v in allv}) for o in used}
+''')
+
 case('identity on the reference tree', REF1, REF1, REF1)
 
 # ---- T0: both spellings of a pair normalise to the same text
